@@ -789,6 +789,8 @@ def to_workbook(spec, overrides=None):
 
 def _cell_xml(coord, formula=None, value=None, array_ref=None, has_formula=False):
     v = value
+    if hasattr(v, 'item') and type(v).__module__ == 'numpy':
+        v = v.item()        # numpy scalars (SUMPRODUCT, AVERAGE) are stored as plain numbers
     if isinstance(v, bool):
         t, vs = 'b', str(int(v))
     elif isinstance(v, (int, float)):
